@@ -11,7 +11,8 @@ from ..pathcond import PathAnalysis
 from ..report import Result
 from .c08 import plumbing, site_obligations
 
-MEMBERS = ("module function/class", "module variable", "method of a module-level class", "attribute assigned in a module-level class body")
+MEMBERS = ("module function/class", "module variable", "method of a module-level class", "attribute assigned in a module-level class body",
+           "class nested in a module-level class")
 TARGET_KINDS = {"Name", "Tuple", "List", "Starred"}
 
 
@@ -149,8 +150,41 @@ def _producer(prog: Program, res: Result) -> None:
         res.bad("R7.3", fn.loc(), fn.fq, "if safe:", "format_code has no safe-mode block: nothing is added to preserve")
         return
     # module variable: the parsed module
-    module_vars = {t.id for s in safe_if.body if isinstance(s, ast.Assign) and isinstance(s.value, ast.Call)
-                   and (prog.dotted(s.value.func) or "") in ("core.parse", "ast.parse") for t in s.targets if isinstance(t, ast.Name)}
+    def module_value(v: ast.AST):
+        """(is a module whose .body holds at least the direct children of the parsed module, descends into compound statements)"""
+        if isinstance(v, ast.Call) and (prog.dotted(v.func) or "") in ("core.parse", "ast.parse"):
+            return True, False
+        if isinstance(v, ast.Call) and (prog.dotted(v.func) or "") == "ast.Module":
+            body = next((k.value for k in v.keywords if k.arg == "body"), None)
+            while isinstance(body, ast.Call) and isinstance(body.func, ast.Name) and body.func.id in ("list", "tuple", "sorted") and body.args:
+                body = body.args[0]
+            if isinstance(body, ast.Call) and body.args and isinstance(body.args[0], ast.Call) and (prog.dotted(body.args[0].func) or "") in ("core.parse", "ast.parse"):
+                r = prog.resolve_call(body.func, fn.mod, fn)
+                if r and r[0] == "fn" and r[1].posparams:
+                    h = r[1]
+                    txt = norm(h.node)
+                    p0 = h.posparams[0]
+                    yields_all = f"{p0}.body" in txt and any(
+                        isinstance(l, ast.For) and isinstance(l.target, ast.Name) and l.body and isinstance(l.body[0], ast.Expr) and isinstance(l.body[0].value, ast.Yield)
+                        and isinstance(l.body[0].value.value, ast.Name) and l.body[0].value.value.id == l.target.id for l in walk_own(h.node))
+                    descends = all(f in txt for f in ("orelse", "handlers", "finalbody")) and "FunctionDef" in txt and "ClassDef" in txt
+                    return yields_all, descends
+        return False, False
+    module_vars = set()
+    descends_any = False
+    mod_stmt = None
+    for s in safe_if.body:
+        if isinstance(s, ast.Assign):
+            is_mod, desc = module_value(s.value)
+            if is_mod:
+                module_vars |= {t.id for t in s.targets if isinstance(t, ast.Name)}
+                descends_any = descends_any or desc
+                mod_stmt = mod_stmt or s
+    if mod_stmt is not None:
+        res.decide(descends_any, "R7.3", fn.loc(mod_stmt), fn.fq, "definitions inside module-level if / try / with / loops",
+                   "the statements scanned for definitions include the blocks of module-level compound statements (functions and classes are not entered)" if descends_any else
+                   "only the direct children of the module are scanned: a fallback `except ImportError: def dumps(..)`, a platform switch `if sys.platform == ..: def helper ..` "
+                   "define public names that safe mode does not protect - they are deleted or renamed")
     emitted: Dict[str, Set[str]] = {m: set() for m in MEMBERS}
     sets: Dict[str, ast.AST] = {}
     for s in safe_if.body:
@@ -216,6 +250,8 @@ def _producer(prog: Program, res: Result) -> None:
                 member = MEMBERS[2]
             elif scope == "class" and kinds == {"Name"}:
                 member = MEMBERS[3]
+            elif scope == "class" and kinds == {"ClassDef"}:
+                member = MEMBERS[4]
             if member:
                 emitted[member].add(form)
                 emitted_by.setdefault((name, member), set()).add(form)
@@ -378,6 +414,10 @@ def _unpacker(prog: Program, res: Result) -> None:
 from ..selftest import Variant  # noqa: E402
 
 VARIANTS = [
+    Variant("safe-mode-scans-direct-children-only", "FIRE", "main",
+            "        module = ast.Module(\n            body=list(parsing.iter_module_scope_statements(core.parse(source))), type_ignores=[]\n        )\n", "        module = core.parse(source)\n", "R7.3"),
+    Variant("nested-classes-not-emitted", "FIRE", "main",
+            "        } | {\n            classdef.name  # A class in a class is a member of it\n            for node in core.filter_nodes(module.body, ast.ClassDef)\n            for classdef in core.filter_nodes(node.body, ast.ClassDef)\n        }\n", "        }\n", "R7.3"),
     Variant("guards-applied-to-the-match-tuples", "FIRE", "fixes",
             "        nodes = [tup[0] for tup in nodes]  # The statements themselves, not their matches\n", "", "R7.8",
             extra=[("fixes", "            continue\n\n        while nodes:\n            if core.walk(nodes[-1], target_template):", "            continue\n\n        nodes = [tup[0] for tup in nodes]\n        while nodes:\n            if core.walk(nodes[-1], target_template):")]),
